@@ -167,7 +167,7 @@ BRIDGE_NEEDS = {
     "QhttpBridge.Range.Ctor3": ["Range::Range/3"], "QhttpBridge.Range.CtorResize": ["Range::Range/2"],
     "QhttpBridge.Ack": ["SocketPrivate::onBytesWritten"],
     "QhttpBridge.Copier": ["QIODeviceCopierPrivate::nextBlock"],
-    "QhttpBridge.Tables": ["SocketPrivate::statusReason", "Parser::parseRequestHeaders (tables)", "ProxySocket::methodToString"],
+    "QhttpBridge.Tables": ["SocketPrivate::statusReason", "Parser::parseRequestHeaders", "ProxySocket::methodToString"],
     "QhttpBridge.Proxy.OnUpstreamError": ["ProxySocket::onUpstreamError"], "QhttpBridge.Proxy.OnUpstreamReadyRead": ["ProxySocket::onUpstreamReadyRead"],
     "QhttpBridge.Proxy.OnDownstreamReadyRead": ["ProxySocket::onDownstreamReadyRead"],
 }
